@@ -1,39 +1,39 @@
-# Per-property configuration of the driver (lib/vf.py).
-#   gen          tables regenerated from the running code before the proofs are re-checked
-#   proof_files  Coq files whose statements are this property's obligations
-#                (Properties/Cxx.v first; its `make` target pulls in everything it depends on)
-#   model_files  executable models the generated cases evaluate (built even if a proof broke)
-GEN_FILES = {
-    "octets": "Gen/Octets.v",
-}
+"""Per-property configuration, assembled from lib/props.d/<PID>.py.
 
-PROPS = {
-    "C20": dict(
-        gen=["octets"],
-        proof_files=["Properties/C20.v", "Proofs/FlagsProofs.v", "Proofs/OctetTables.v"],
-        model_files=["Model/Flags.v"],
-        trusted=["Gen/Octets.v is the complete 256-row tabulation of the running octet codecs (dumper: harness/gen_octets.go)"],
-        assumptions=["encoding/json, fmt.Sscanf, time.Date and time.Time accessors are Go library code, tied by the exhaustive table / the generated cases only"],
-    ),
-}
+Each props.d file defines:
+  PROP      dict for the driver (lib/vf.py):
+              gen          tables regenerated from the running code before the proofs are re-checked
+              proof_files  Coq files whose statements are this property's obligations
+                           (Properties/<PID>.v first; its make target pulls in everything it depends on)
+              model_files  executable models the generated cases evaluate (built even if a proof broke)
+              trusted, assumptions   strings copied into the evidence file
+              race         True if the check also needs the -race harness binary
+  GEN       dict table-name -> Gen/*.v path (tables this property introduced)
+  MANIFEST  dict(engine, design_ref, technique, text, note)
+  ENGINE    optional dict(name, path, serves_properties, kind_free_text)
+"""
+import glob
+import importlib.util
+import os
 
-ENGINES = [
-    {"name": "scalar", "path": "coq/Model/Flags.v coq/Model/SmppTime.v harness/c20.go", "serves_properties": ["C20"],
-     "kind_free_text": "Coq model + exhaustive octet tables regenerated from the code + kernel-evaluated correspondence cases"},
-]
+PROPS, GEN_FILES, MANIFEST_TEXT, ENGINES = {}, {}, {}, []
+_d = os.path.join(os.path.dirname(os.path.abspath(__file__)), "props.d")
+for _f in sorted(glob.glob(os.path.join(_d, "C*.py"))):
+    _pid = os.path.basename(_f)[:-3]
+    _spec = importlib.util.spec_from_file_location("props_" + _pid, _f)
+    _m = importlib.util.module_from_spec(_spec)
+    _spec.loader.exec_module(_m)
+    PROPS[_pid] = _m.PROP
+    GEN_FILES.update(getattr(_m, "GEN", {}))
+    MANIFEST_TEXT[_pid] = _m.MANIFEST
+    _e = getattr(_m, "ENGINE", None)
+    if _e:
+        for _x in ENGINES:
+            if _x["name"] == _e["name"]:
+                _x["serves_properties"] = sorted(set(_x["serves_properties"]) | set(_e["serves_properties"]))
+                break
+        else:
+            ENGINES.append(dict(_e))
 
-_PENDING = "check not built yet (work in progress in this session; the property is in scope of the technique, see DESIGN.md §5)"
+_PENDING = "check not built yet (work in progress; the property is in scope of the technique, see DESIGN.md §5)"
 NOT_APPLICABLE = [{"property_id": "C%02d" % i, "reason": _PENDING} for i in range(1, 21) if "C%02d" % i not in PROPS]
-
-MANIFEST_TEXT = {
-    "C20": dict(
-        engine="scalar",
-        design_ref="DESIGN.md §5 C20",
-        technique="Coq proof (kernel sweeps over all 256 octets lifted to forall; table regenerated from code) + vm_compute correspondence",
-        text="Theorems in coq/Properties/C20.v: decode/encode identity and SMPP bit positions for esm_class and registered_delivery, "
-             "JSON round trip of interface_version, for all 256 octets, proved of the model AND of the complete table dumped from the "
-             "running code on this run (so the theorem speaks about the code, not a sample).",
-        note="Trusted: Coq kernel + vm_compute; the Go table dumper; Go's encoding/json, fmt and time packages (library code, tied by the tables / cases). "
-             "No axioms (Print Assumptions: closed under the global context).",
-    ),
-}
